@@ -14,10 +14,19 @@ import (
 )
 
 const (
-	repoDir = "/repo"
 	goBin   = "go1.26.8"
 	hclMod  = "github.com/hashicorp/hcl/v2"
 )
+
+// repoDir is the tree under test: /repo, unless VERIF_REPO points at a scratch
+// worktree (used only for trying deliberate property-breaking changes in
+// parallel; registered commands never set it).
+var repoDir = func() string {
+	if d := os.Getenv("VERIF_REPO"); d != "" {
+		return d
+	}
+	return "/repo"
+}()
 
 // verifDir is the root of the verification machinery (bin/check exports it, so
 // that a snapshot of /verif uses its own sources and writes its own evidence).
